@@ -123,7 +123,7 @@ let () =
           let names p = String.concat "," (List.map (fun h -> implode (helper_name h)) (helpers_emitted p m)) in
           let hexs l = String.concat "," (List.map hx l) in
           let voi p = match m.am_voi with Some v -> rows [voi_info p v] | None -> "" in
-          Printf.printf "flags=%s\tastflags=%s\twf=%s\tsizes=%d,%d,%d\tnla=%s\thelpersC=%s\thelpersPy=%s\tdeclC=%s\tdefC=%s\tdeclPy=%s\tdefPy=%s\tvoiC=%s\tstatesC=%s\tvarsC=%s\tvoiPy=%s\tstatesPy=%s\tvarsPy=%s\tifaceC=%s\tifacePy=%s\timplC=%s\timplPy=%s\n"
+          Printf.printf "flags=%s\tastflags=%s\twf=%s\tsizes=%d,%d,%d\tnla=%s\thelpersC=%s\thelpersPy=%s\tdeclC=%s\tdefC=%s\tdeclPy=%s\tdefPy=%s\tvoiC=%s\tstatesC=%s\tvarsC=%s\tvoiPy=%s\tstatesPy=%s\tvarsPy=%s\tifaceC=%s\tifacePy=%s\timplC=%s\timplPy=%s\temptyC=%s\temptyPy=%s\n"
             (bits fl) (bits astfl) (if wf_indices_b m then "1" else "0")
             (int_of_nat sz.sz_component) (int_of_nat sz.sz_name) (int_of_nat sz.sz_units)
             (String.concat "," (List.map (fun (i, s) -> Printf.sprintf "%d:%d" (int_of_nat i) (int_of_nat s)) (nla_systems m)))
@@ -135,6 +135,7 @@ let () =
             (hx (interface_code PC (Some profile_C) ver (Some m))) (hx (interface_code PPy (Some profile_Py) ver (Some m)))
             (pieces (implementation_code PC (Some profile_C) ver (Some m)))
             (pieces (implementation_code PPy (Some profile_Py) ver (Some m)))
+            (hx (method_body_code profile_C [])) (hx (method_body_code profile_Py []))
         with Failure msg -> Printf.printf "MODELERROR %s\n" msg
            | Not_found -> Printf.printf "MODELERROR missing field\n")
      done
